@@ -1241,7 +1241,37 @@ func (d *DotGit) SetRef(r, old *plumbing.Reference) error {
 
 	fileName := r.Name().String()
 
-	return d.setRef(fileName, content, old)
+	err := d.setRef(fileName, content, old)
+	if err != nil && d.removeEmptyDirs(fileName) {
+		// An empty directory (left by the removal of a reference below
+		// this name, also by git) was in the way, as git's
+		// remove_empty_directories handles.
+		err = d.setRef(fileName, content, old)
+	}
+
+	return err
+}
+
+// removeEmptyDirs removes path if it is a directory that contains nothing
+// but (recursively) empty directories, and reports whether it did so.
+func (d *DotGit) removeEmptyDirs(path string) bool {
+	fi, err := d.fs.Lstat(path)
+	if err != nil || !fi.IsDir() {
+		return false
+	}
+
+	entries, err := d.fs.ReadDir(path)
+	if err != nil {
+		return false
+	}
+
+	for _, e := range entries {
+		if !d.removeEmptyDirs(d.fs.Join(path, e.Name())) {
+			return false
+		}
+	}
+
+	return d.fs.Remove(path) == nil
 }
 
 // Refs scans the git directory collecting references, which it returns.
@@ -1341,6 +1371,9 @@ func (d *DotGit) RemoveRef(name plumbing.ReferenceName) error {
 	_, err := d.fs.Stat(path)
 	if err == nil {
 		err = d.fs.Remove(path)
+		if err == nil {
+			d.removeEmptyRefParents(name)
+		}
 		// Drop down to remove it from the packed refs file, too.
 	}
 
@@ -1349,6 +1382,21 @@ func (d *DotGit) RemoveRef(name plumbing.ReferenceName) error {
 	}
 
 	return d.rewritePackedRefsWithoutRef(name)
+}
+
+// removeEmptyRefParents removes the directories that the removal of the
+// loose reference name left empty, as git's try_remove_empty_parents does,
+// so that they do not block a later reference named like one of them. It
+// stops at the first directory that cannot be removed (e.g. because it is
+// not empty) and never removes refs/ nor its direct children (refs/heads,
+// refs/tags, ...).
+func (d *DotGit) removeEmptyRefParents(name plumbing.ReferenceName) {
+	parts := strings.Split(name.String(), "/")
+	for i := len(parts) - 1; i > 2; i-- {
+		if err := d.fs.Remove(d.fs.Join(parts[:i]...)); err != nil {
+			return
+		}
+	}
 }
 
 func refsRecvFunc(refs *[]*plumbing.Reference, seen map[plumbing.ReferenceName]bool) refsRecv {
@@ -1686,6 +1734,7 @@ func (d *DotGit) PackRefs() (err error) {
 		if err != nil && !os.IsNotExist(err) {
 			return err
 		}
+		d.removeEmptyRefParents(ref.Name())
 	}
 
 	return nil
